@@ -8,15 +8,17 @@ op); exhaustive over small key universes with forced collisions, random to lengt
 import vcommon as V
 
 META = dict(
-    text="Lean 4 theorems (Props/C14.lean) prove, for every operation history of any length over any key type, any hash-code function that respects key equality (collisions arbitrary) and any key equality that is an equivalence, that the model of HashSet/HashDelete/HashGet/HashGetDefault/HashPairi/HashCountKeys/keys/range/SexpString/json keeps its three pieces of bookkeeping consistent (invariant Inv: KeyOrder = the live keys once each, NumKeys = total bucket size, buckets hold pairwise different keys of their code) and that every observation equals that of an association list in first-insertion order; deleting or looking up a missing key changes nothing. Unit tests reach one delete; the theorem covers all interleavings.",
+    text="Lean 4 theorems (Props/C14.lean) prove, for every operation history of any length over any key type, any hash-code function that respects key equality (collisions arbitrary) and any key equality that is an equivalence, that the model of HashSet/HashDelete/HashGet/HashGetDefault/HashPairi/HashCountKeys/keys/range/SexpString/json keeps its three pieces of bookkeeping consistent (invariant Inv: KeyOrder = the live keys once each, NumKeys = total bucket size, buckets hold pairwise different keys of their code) and that every observation equals that of an association list in first-insertion order; deleting or looking up a missing key changes nothing; for the defining loop `for k, v := range h` (one mdef per iteration, Model/RangeBind, fix C14-03) that it presents exactly the pairs of range when the keys have one type and otherwise stops with an error, never with a wrong list (defining_range_partial, defining_range_never_wrong; the full statement fails for keys of different types: known finding). Unit tests reach one delete; the theorem covers all interleavings.",
     note="Trusted: Lean kernel; axioms propext/Classical.choice/Quot.sound; Model/Hash.lean is hand-written and tied to zygo/hashutils.go + functions.go + jsonmsgp.go by the `hash` correspondence (differential testing: exhaustive histories over 5/6-key universes with symbol/int and string/int code collisions, char/int and [k]/k aliases, every observer after every step, script route and direct route with bookkeeping dump; random histories to length 200). Key equality enters as hypotheses (KeyLaws: equivalence + code congruence), proved for the channel's concrete key universe (symbols, strings, ints, chars). hash/fnv and symbol numbering are exercised by the channel, not proved. Multi-element array keys, list keys, typed records and CloneFrom aliasing are outside the property.",
     technique="Lean 4 refinement proof (bucket/KeyOrder/NumKeys model refines ordered association list) + model/implementation correspondence on exhaustive small-scope histories",
     design_ref="DESIGN.md §7 C14",
 )
 
-# The two-variable `:=` range form is lowered to `mdef`, whose BindlistInstr drops the error of
-# LexicalBindSymbol; with keys of different types the loop variable keeps the first key. One
-# fixed history exhibits it (see notes/C14.known.json); `ranged` is used nowhere else.
+# The two-variable `:=` range form is lowered to one `mdef` per iteration in the loop's scope; with
+# keys of different types the re-binding is refused. Since repo fix C14-03 BindlistInstr reports
+# that error (before, the loop variable silently kept the first key). Model/RangeBind models the
+# binding; one fixed history of mixed key types is the known finding (notes/C14.known.json), a
+# stream of histories over keys of one type checks that `ranged` presents what `range` presents.
 
 
 def run(rep):
@@ -48,6 +50,16 @@ def run(rep):
         return " del/" in op and "bad-op" not in impl
 
     bad_spec, bad_model = V.correspondence(rep, "hash", rows, stats, nontrivial=nontrivial)
+    # A known finding is recorded the way the MODEL describes it (the defining range loop stops
+    # with an error). If the real code fails the property on that input in another way, that is
+    # not the recorded finding: e.g. BindlistInstr swallowing the error again (fix C14-03
+    # reverted) makes the loop repeat the first key silently.
+    for op, impl, model, spec in rows:
+        if rep.match_known(op) and impl != spec and impl != model:
+            rep.violation("failing-input", {"channel": "hash", "ops": [op], "spec_requires": spec, "impl_did": impl,
+                                            "model_did": model,
+                                            "note": "fails differently from the recorded known finding (which is what the model answers)"})
+            bad_spec = list(bad_spec) + [(op, impl, model, spec)]
     rep.coverage["exhaustive"] = True
     rep.coverage["rule"] = ("every history of set/del over the universes uA (symbol + int with the symbol's number, 'x' + 120 + [120]) and uB "
                             "(string + int with its FNV-32 code, symbol, [symbol], [string], char) up to the length recorded in the distribution, "
